@@ -63,7 +63,24 @@ def build(kind, log, refs=None, coroutine=None):
 
         def h_server(request, context, error):
             return _E(9100, 'tagged')
-    s = Sys(kind, methods.STD_TABLE, coroutine_methods=coroutine, error_handlers={None: [h_generic], -32000: [h_server]})
+    # two middlewares: a pass-through one and one that tags successful results (a request that slips past it is visible)
+    from pjrpc.common import Response as _R, UnsetType as _U
+    if is_async:
+        async def mw_pass(request, context, handler):
+            return await handler(request, context)
+
+        async def mw_tag(request, context, handler):
+            r = await handler(request, context)
+            return r if (isinstance(r, _U) or r.is_error) else _R(id=r.id, result={'tagged': r.result})
+    else:
+        def mw_pass(request, context, handler):
+            return handler(request, context)
+
+        def mw_tag(request, context, handler):
+            r = handler(request, context)
+            return r if (isinstance(r, _U) or r.is_error) else _R(id=r.id, result={'tagged': r.result})
+    s = Sys(kind, methods.STD_TABLE, coroutine_methods=coroutine, error_handlers={None: [h_generic], -32000: [h_server]},
+            middlewares=[mw_pass, mw_tag])
     d = s.d
     log = s.log
     js = vjs.JsonSchemaValidator()
@@ -311,6 +328,63 @@ def run_retention(case, rec):
     return (last['ctx'], last['objs'], growth > 200)
 
 
+def run_http_retention(case, rec):
+    """(b'') the same through a web-framework integration: the per-request context is the framework's request object; after the
+    reply none of them may stay referenced by the library (whatever kind of request it was)"""
+    from mc.harness.http import Integration
+    kind, req = case['integration'], case['request']
+    integ = Integration(kind, '/api')
+    refs = []
+
+    def see(ctx):
+        refs.append(weakref.ref(ctx))
+    if kind == 'aiohttp':
+        async def m(ctx, a=0):
+            see(ctx)
+            return a
+
+        async def bad(ctx):
+            see(ctx)
+            raise ValueError('x')
+    else:
+        def m(ctx, a=0):
+            see(ctx)
+            return a
+
+        def bad(ctx):
+            see(ctx)
+            raise ValueError('x')
+    integ.dispatcher.add(m, name='m', context='ctx')
+    integ.dispatcher.add(bad, name='bad', context='ctx')
+    bodies = {
+        'call': {'jsonrpc': '2.0', 'method': 'm', 'params': [1], 'id': 1},
+        'notif': {'jsonrpc': '2.0', 'method': 'm', 'params': [1]},
+        'notif-batch': [{'jsonrpc': '2.0', 'method': 'm'}, {'jsonrpc': '2.0', 'method': 'bad'}],
+        'fail': {'jsonrpc': '2.0', 'method': 'bad', 'id': 2},
+        'mixed': [{'jsonrpc': '2.0', 'method': 'm', 'id': 1}, {'jsonrpc': '2.0', 'method': 'm'}],
+    }
+    seq = [req] * 30 if req != 'alternate' else ['call', 'notif', 'fail', 'notif-batch', 'mixed'] * 6
+    for name in seq:
+        r = integ.post(json.dumps(bodies[name]).encode(), 'application/json')
+        rec.transitions += 1
+        if r.raised:
+            rec.violation('C13:b:the %s integration raised while serving %s' % (kind, name), case, expected='a reply', observed=r.raised)
+            return 'raised'
+        del r
+    gc.collect()
+    alive = sum(1 for r in refs if r() is not None)
+    if not refs:
+        raise HarnessError('no context objects were observed')
+    if alive:
+        rec.violation('C13:b:request objects (contexts) retained by the %s integration after the replies (%s)' % (kind, req), case,
+                      expected='0 of %d alive' % len(refs), observed=alive)
+    rec.traces += 1
+    rec.states += 1
+    rec.nontrivial_n += 1
+    rec.counters['http retention runs'] += 1
+    return alive
+
+
 def run_cancel(case, rec):
     """(b') an asynchronous dispatch that is CANCELLED while its elements are suspended (the client went away): afterwards
     nothing of the request may stay referenced either - contexts, views, tokens dead, no tasks left behind"""
@@ -523,6 +597,9 @@ def gen_cases(ctx):
     for req in ('batch', 'ctx', 'view', 'ok', 'pdok'):
         for steps in (1, 2, 3, 5):
             yield dict(part='cancel', request=req, steps=steps)
+    for integration in ('werkzeug', 'aiohttp'):
+        for req in ('call', 'notif', 'notif-batch', 'fail', 'mixed', 'alternate'):
+            yield dict(part='http', integration=integration, request=req)
     ok_kinds = ['g1ok', 'g2ok', 'g1perr', 'v1ok', 'plain', 'unknown', 'g1boom']
     for n in (2, 3):
         for kinds in itertools.product(ok_kinds if n == 2 else ['g1ok', 'g1perr', 'v1ok'], repeat=n):
@@ -552,6 +629,8 @@ def run_case(case, rec):
         obs = run_retention(case, r)
     elif case['part'] == 'cancel':
         obs = run_cancel(case, r)
+    elif case['part'] == 'http':
+        obs = run_http_retention(case, r)
     elif case['part'] == 'overlap':
         obs = run_overlap(case, r)
     else:
